@@ -472,6 +472,17 @@ func checkC19(p *Prog, r *Report) {
 			}
 			nr++
 			c := fnName(fn) + ":reads-silenced"
+			if fn == wp && mergedPlainWrite(p, wp) {
+				/* The plain write is written out in the output loop: the
+				flag may be consulted there for Plain lines only. */
+				plainF := p.Field("lib/opshell", "CLine", "Plain")
+				if nil != plainF && nil != guardingFieldTestTrue(wp, i, plainF) {
+					rRead.OK(c, posOf(i), "plain-write path (below the cl.Plain test)")
+				} else {
+					rRead.Bad(c, posOf(i), "%s consults the mute flag outside the cl.Plain path: lines other than raw shell output can be suppressed", fnName(fn))
+				}
+				return
+			}
 			if allowed[fn] {
 				rRead.OK(c, posOf(i), "plain-write path")
 			} else {
@@ -481,6 +492,15 @@ func checkC19(p *Prog, r *Report) {
 	}
 	if nr < 2 {
 		rRead.Unproven("silenced:reads", token.NoPos, "%d reads of silenced found", nr)
+	}
+	/* Where the handling of one line ends: the function returns, or (the
+	plain write written out in the output loop) the next line is awaited. */
+	endOfLine := func(j ssa.Instruction) bool {
+		if isReturn(j) {
+			return true
+		}
+		_, isSel := j.(*ssa.Select)
+		return isSel
 	}
 	/* writePlain: terminal write below the not-silenced edge; the silenced edge re-arms and returns without writing. */
 	if ifi, tk := silTest(wp); nil != ifi {
@@ -503,7 +523,7 @@ func checkC19(p *Prog, r *Report) {
 		}
 		/* Without Ctrl+O nothing is suppressed: from the not-silenced edge the write is on every path to return. */
 		if nil != write {
-			if miss := (reachQ{From: edgeLoc(ifi.Block(), 1-tk), Target: isReturn, Block: func(j ssa.Instruction) bool { return j == write }}).run(); nil != miss {
+			if miss := (reachQ{From: edgeLoc(ifi.Block(), 1-tk), Target: endOfLine, Block: func(j ssa.Instruction) bool { return j == write }}).run(); nil != miss {
 				rRead.Bad(fnName(wp)+":never-dropped-unmuted", posOf(miss), "plain output can be dropped although output is not muted")
 			} else {
 				rRead.OK(fnName(wp)+":never-dropped-unmuted", posOf(write), "when not muted every plain line is written")
@@ -511,9 +531,9 @@ func checkC19(p *Prog, r *Report) {
 		}
 		from := edgeLoc(ifi.Block(), tk)
 		switch {
-		case nil != (reachQ{From: from, Target: isReturn, Block: recordsNow}).run():
+		case nil != (reachQ{From: from, Target: endOfLine, Block: recordsNow}).run():
 			rArm.Bad(fnName(wp)+":suppressed-write-rearms", posOf(ifi), "a suppressed plain write does not record its time: muting ends although output is still arriving")
-		case nil != (reachQ{From: from, Target: isReturn, Block: func(j ssa.Instruction) bool { ok, _ := isReset(j); return ok }}).run():
+		case nil != (reachQ{From: from, Target: endOfLine, Block: func(j ssa.Instruction) bool { ok, _ := isReset(j); return ok }}).run():
 			rArm.Bad(fnName(wp)+":suppressed-write-rearms", posOf(ifi), "a suppressed plain write does not push the timer back")
 		default:
 			rArm.OK(fnName(wp)+":suppressed-write-rearms", posOf(ifi), "a suppressed write records its time and pushes the timer back")
@@ -745,4 +765,11 @@ func describeBool(v ssa.Value) string {
 		return fmt.Sprint(b)
 	}
 	return "?"
+}
+
+// mergedPlainWrite: the function found for writePlain is the output loop
+// itself (it receives the lines it writes).
+func mergedPlainWrite(p *Prog, wp *ssa.Function) bool {
+	ho := p.Func(opsPkg, "Shell", "handleOutput")
+	return nil != ho && ho == wp
 }
